@@ -65,6 +65,41 @@ def namespace_created_only_if_absent(chk: Check, rule: str) -> None:
                'of the object found: an existing but still empty namespace is falsy and would be replaced)', node=m.ast, kind='create-only-if-absent')
 
 
+def absorbed_ports_are_copies(chk: Check, rule: str):
+    """What absorb stores in the destination is a copy of the source port; a shallow-copied namespace gets a fresh port container before the recursive absorb fills
+    it.  Shared with C12: a class that exposes the outputs of another and then adapts its own spec must not change what the other class accepts."""
+    prog = chk.prog
+    ab = prog.func('ports.PortNamespace.absorb')
+    cfg = cfg_of(ab)
+    src = ab.params[1]  # port_namespace
+    # 2. copies only
+    stores = [n for n in cfg.nodes if n.kind == 'stmt' and isinstance(n.ast, ast.Assign) and any(isinstance(t, ast.Subscript) and norm(t.value) == 'self' for t in n.ast.targets)]
+    chk.floor(rule, len(stores), 2)
+    loop = [l for l in ast.walk(ab.node) if isinstance(l, ast.For) and norm(l.iter) in (f'{src}.items()', f'{src}._ports.items()', f'{src}.ports.items()')]
+    chk.need(len(loop) == 1, 'the loop over the source ports was not found in absorb')
+    pvar = loop[0].target.elts[1].id if isinstance(loop[0].target, ast.Tuple) else ''
+    for s in stores:
+        v = s.ast.value
+        ok = isinstance(v, ast.Call) and norm(v.func) in ('copy.copy', 'copy.deepcopy') and [norm(a) for a in v.args] == [pvar]
+        chk.ob(rule, ab, ok, f'what is stored in the destination is a copy of the source port ({norm(v)}): later changes to either spec do not show through',
+               node=s.ast, kind='stored-value-is-copy')
+        if ok and norm(v.func) == 'copy.copy':
+            # a shallow-copied namespace shares its _ports dict with the source: it must get a fresh container before anything is absorbed into it
+            resets = [n for n in cfg.nodes if n.kind == 'stmt' and isinstance(n.ast, ast.Assign) and norm(n.ast.targets[0]).endswith('._ports') and norm(n.ast.value) in ('{}', 'dict()')]
+            absorbs = [n for n in cfg.nodes if any(last_name(c) == 'absorb' for c in _calls(n))]
+            # from the shallow copy every way onwards (next port, or the end of absorb) passes the reset AND the recursive absorb
+            onward = [n for n in cfg.nodes if n.kind == 'iter'] + [cfg.exit]
+            ok2 = bool(resets) and bool(absorbs) and all(cfg.must_pass(s, [a], lambda x: x in resets, edge_ok=no_exc) for a in absorbs) and \
+                cfg.must_pass(s, onward, lambda x: x in resets, edge_ok=no_exc) and cfg.must_pass(s, onward, lambda x: x in absorbs, edge_ok=no_exc)
+            chk.ob(rule, ab, ok2, 'the shallow-copied namespace receives a fresh port container before the recursive absorb fills it (otherwise it would write into '
+                   'the source namespace\'s own container)', node=s.ast, kind='fresh-container')
+            # the object reset / absorbed into is the copy just stored
+            rec = [c for a in absorbs for c in _calls(a) if last_name(c) == 'absorb']
+            ok3 = len(rec) == 1 and [norm(a) for a in rec[0].args[:1]] == [pvar]
+            chk.ob(rule, ab, ok3, 'the recursion absorbs the source sub-namespace', node=rec[0] if rec else None, kind='recursion-source')
+    return stores, pvar
+
+
 def run(chk: Check) -> None:
     prog = chk.prog
     ab = prog.func('ports.PortNamespace.absorb')
@@ -99,30 +134,7 @@ def run(chk: Check) -> None:
     chk.ob('DOM-mutually-exclusive', ep, any(any(m in acts for m in p) for p in one2), 'one of the two alone is accepted', kind='rejection-tests-agree')
 
     # 2. copies only
-    stores = [n for n in cfg.nodes if n.kind == 'stmt' and isinstance(n.ast, ast.Assign) and any(isinstance(t, ast.Subscript) and norm(t.value) == 'self' for t in n.ast.targets)]
-    chk.floor('PROV-copies-only', len(stores), 2)
-    loop = [l for l in ast.walk(ab.node) if isinstance(l, ast.For) and norm(l.iter) in (f'{src}.items()', f'{src}._ports.items()', f'{src}.ports.items()')]
-    chk.need(len(loop) == 1, 'the loop over the source ports was not found in absorb')
-    pvar = loop[0].target.elts[1].id if isinstance(loop[0].target, ast.Tuple) else ''
-    for s in stores:
-        v = s.ast.value
-        ok = isinstance(v, ast.Call) and norm(v.func) in ('copy.copy', 'copy.deepcopy') and [norm(a) for a in v.args] == [pvar]
-        chk.ob('PROV-copies-only', ab, ok, f'what is stored in the destination is a copy of the source port ({norm(v)}): later changes to either spec do not show through',
-               node=s.ast, kind='stored-value-is-copy')
-        if ok and norm(v.func) == 'copy.copy':
-            # a shallow-copied namespace shares its _ports dict with the source: it must get a fresh container before anything is absorbed into it
-            resets = [n for n in cfg.nodes if n.kind == 'stmt' and isinstance(n.ast, ast.Assign) and norm(n.ast.targets[0]).endswith('._ports') and norm(n.ast.value) in ('{}', 'dict()')]
-            absorbs = [n for n in cfg.nodes if any(last_name(c) == 'absorb' for c in _calls(n))]
-            # from the shallow copy every way onwards (next port, or the end of absorb) passes the reset AND the recursive absorb
-            onward = [n for n in cfg.nodes if n.kind == 'iter'] + [cfg.exit]
-            ok2 = bool(resets) and bool(absorbs) and all(cfg.must_pass(s, [a], lambda x: x in resets, edge_ok=no_exc) for a in absorbs) and \
-                cfg.must_pass(s, onward, lambda x: x in resets, edge_ok=no_exc) and cfg.must_pass(s, onward, lambda x: x in absorbs, edge_ok=no_exc)
-            chk.ob('PROV-copies-only', ab, ok2, 'the shallow-copied namespace receives a fresh port container before the recursive absorb fills it (otherwise it would write into '
-                   'the source namespace\'s own container)', node=s.ast, kind='fresh-container')
-            # the object reset / absorbed into is the copy just stored
-            rec = [c for a in absorbs for c in _calls(a) if last_name(c) == 'absorb']
-            ok3 = len(rec) == 1 and [norm(a) for a in rec[0].args[:1]] == [pvar]
-            chk.ob('PROV-copies-only', ab, ok3, 'the recursion absorbs the source sub-namespace', node=rec[0] if rec else None, kind='recursion-source')
+    stores, pvar = absorbed_ports_are_copies(chk, 'PROV-copies-only')
     # 3. segment-exact rule matching
     n_cmp = 0
     for f in (ab, prog.func('ports.PortNamespace.strip_namespace')):
